@@ -44,8 +44,9 @@ pub const INFO: Info = Info {
            spectrum) for every loop-carried local; arrays that declare no kind after one that does; exhaustive optional-field subsets \
            for two-spectrum documents (thorough); payload lengths 0..17 x dtype x compression; single-fault \
            documents (absent/unparsable value, missing accession/id/unit, bad base64, bad zlib) for every error \
-           class; `chaos`: well-nested random trees with elements in wrong places; `tic-zero`: the recorded \
-           defect; routes: direct parse, read_spectra from a file named .mzML/.mzml/.MZML, read_spectra from a gzip file named \
+           class; `chaos`: well-nested random trees with elements in wrong places; `tic-zero`: a total ion current of 0 (formerly read as a blank spectrum) on MS1/MS2/MS3 elements, as \
+           first / last / random direct param or late (after a scan, a precursor, between arrays), under every \
+           filter / S/N combination, and now and then in the random documents; routes: direct parse, read_spectra from a file named .mzML/.mzml/.MZML, read_spectra from a gzip file named \
            .mzML.gz/.mzml.gz/.MZML.GZ/.mzml.Gz (and read_mzml for .mzML.gzip) - all spellings the unchanged code reads; \
            ids and spectrumRefs with characters that need XML escaping (entities and numeric references); \
            array-length attributes: the renderer writes the true defaultArrayLength / arrayLength / encodedLength \
@@ -934,7 +935,13 @@ fn gen_el(r: &mut Rng, n: usize, o: &Opts) -> El {
         ps.push(p(LEVEL, Val::N(o.level as u64)));
     }
     if has(r, 60) {
-        ps.push(p(TIC, Val::F(((r.unit() * 1e6 + 1.0) as f32).to_bits())));
+        // zero is an ordinary value (since the repair of C16-tic-zero)
+        let v = if o.rich.is_none() && r.chance(1, 8) {
+            *r.pick(&[Val::N(0), Val::F(0), Val::F(0x8000_0000)])
+        } else {
+            Val::F(((r.unit() * 1e6 + 1.0) as f32).to_bits())
+        };
+        ps.push(p(TIC, v));
     }
     if o.rich.is_none() {
         r.shuffle(&mut ps);
@@ -1626,18 +1633,72 @@ pub fn gen(rng: &mut Rng, tier: Tier, emit: &mut dyn FnMut(Case)) {
         emit(Case::new(request(style_for(rng, 0), filter, sn, &evs)).tag("length-attr").tag("length-attr:mixed"));
     }
 
-    // --- D: the recorded defect (TIC = 0), kept small and apart
-    for i in 0..(if quick { 24 } else { 200 }) {
+    // --- D: TIC = 0 (finding C16-tic-zero, repaired): the element is read as encoded, wherever the param stands
+    for i in 0..(if quick { 72 } else { 1440 }) {
         let nsp = 1 + rng.below(3);
         let at = rng.below(nsp);
-        let mut els: Vec<El> = (0..nsp).map(|n| gen_el(rng, n, &Opts { level: 2, noise_cv: 0, rich: None })).collect();
+        let level = [1u8, 2, 3][i % 3];
+        let other = [2u8, 3, 1][i % 3];
+        let noise_cv = if i % 2 == 0 { 0 } else { 10 };
+        let mut els: Vec<El> = (0..nsp)
+            .map(|n| {
+                let lv = if n == at { level } else { *rng.pick(&[1u8, 2, 2, 3]) };
+                gen_el(rng, n, &Opts { level: lv, noise_cv, rich: None })
+            })
+            .collect();
         let zero = *rng.pick(&[Val::N(0), Val::F(0), Val::F(0x8000_0000)]);
         els[at].params.retain(|q| q.c != TIC);
-        let pos = rng.below(els[at].params.len() + 1);
-        els[at].params.insert(pos, p(TIC, zero));
-        let evs = doc_events(&els, rng, 0);
-        let filter = if i % 3 == 2 { Some(2u8) } else { None };
-        emit(Case::new(request(style_for(rng, 0), filter, None, &evs)).tag("tic-zero"));
+        let mode = (i / 3) % 4;
+        let pos = match mode {
+            0 => 0,
+            1 => els[at].params.len(),
+            _ => rng.below(els[at].params.len() + 1),
+        };
+        if mode != 3 {
+            els[at].params.insert(pos, p(TIC, zero));
+        }
+        let mut evs = doc_events(&els, rng, if i % 2 == 0 { 0 } else { 15 });
+        let mut late = false;
+        if mode == 3 {
+            // out of schema order: the param comes after a scan, a precursor or between the arrays of its spectrum
+            let mut seen = 0usize;
+            let mut inside = false;
+            let mut cand = Vec::new();
+            for (k, e) in evs.iter().enumerate() {
+                match e {
+                    Ev::Start(Tag::Sp, _, _) => {
+                        inside = seen == at;
+                        seen += 1;
+                    }
+                    Ev::End(Tag::Sp) => inside = false,
+                    Ev::End(Tag::Bda) | Ev::End(Tag::Pre) | Ev::End(Tag::Sc) if inside => cand.push(k + 1),
+                    _ => {}
+                }
+            }
+            if cand.is_empty() {
+                let k = evs.iter().position(|e| matches!(e, Ev::Start(Tag::Sp, _, _))).unwrap();
+                // (first spectrum: still a legal place, right after the start tag)
+                evs.insert(k + 1, Ev::Cv(TIC, zero, 'a'));
+            } else {
+                let k = *rng.pick(&cand);
+                evs.insert(k, Ev::Cv(TIC, zero, 'a'));
+                late = true;
+            }
+        }
+        let (filter, sn) = match (i / 12) % 6 {
+            0 => (None, None),
+            1 => (Some(level), None),
+            2 => (None, Some(level)),
+            3 => (Some(level), Some(level)),
+            4 => (Some(other), None),
+            _ => (None, Some(other)),
+        };
+        emit(Case::new(request(style_for(rng, 0), filter, sn, &evs))
+            .tag("tic-zero")
+            .tag_if(late, "tic-zero:late")
+            .tag_if(filter.is_some(), "tic-zero:level-filter")
+            .tag_if(sn.is_some(), "tic-zero:signal-to-noise")
+            .tag(["tic-zero:ms1", "tic-zero:ms2", "tic-zero:ms3"][i % 3]));
     }
 
     // --- E: single-fault documents: every error class
